@@ -5029,6 +5029,14 @@ def missing_context_manager(source: str) -> str:
                 removals.append(node)
                 break
 
+        # The with statement closes the object it opened; a removed "f.close()" closed whatever f
+        # was bound to by then.
+        if removals and any(
+            any(core.walk(node, ast.Name(id=target.id, ctx=ast.Store))) for node in nodes
+        ):
+            removals = []
+            continue
+
         if any(
             core.has_ignore_comment(source, core.get_charnos(node, source))
             for node in (asmt, *nodes, *removals)
